@@ -1079,6 +1079,34 @@ def timestampOld (sec : Int) (nsec : Nat) : Option Int :=
   if s + nsec / 1000000000 > 9223372036854775807 then none
   else some (s * 1000000000 + nsec)
 
+/-- `WaitInfo::status` (src/process.rs, with the `fix:` commit 52243a1): the raw value of the
+`ExitStatus` it returns. `ExitStatus::from_raw` takes a wait status as `wait(2)` returns it, so
+`si_status` is encoded according to `si_code` (`CLD_EXITED` 1, `CLD_KILLED` 2, `CLD_DUMPED` 3,
+`CLD_TRAPPED` 4, `CLD_STOPPED` 5, `CLD_CONTINUED` 6; anything else is passed through). `status`
+is an `i32`; the bit operations act on its two's complement. -/
+def waitStatus (code status : Int) : Int :=
+  let u : Nat := (status % 4294967296).toNat
+  if code = 1 then ((u % 256 * 256 : Nat) : Int)
+  else if code = 2 then ((u % 128 : Nat) : Int)
+  else if code = 3 then ((u % 128 + 128 : Nat) : Int)
+  else if code = 4 ∨ code = 5 then ((u % 256 * 256 + 127 : Nat) : Int)
+  else if code = 6 then 65535
+  else status
+
+/-- Before the fix: `si_status` as is. -/
+def waitStatusOld (_code status : Int) : Int := status
+
+/-- The `wait(2)` status macros (`WIFEXITED`, `WEXITSTATUS`, `WIFSIGNALED`, `WTERMSIG`,
+`WCOREDUMP`, `WIFSTOPPED`, `WSTOPSIG`, `WIFCONTINUED`) on a non-negative status word. -/
+def wifexited (w : Int) : Bool := w % 128 = 0
+def wexitstatus (w : Int) : Int := w / 256 % 256
+def wifsignaled (w : Int) : Bool := w % 128 ≠ 0 ∧ w % 128 ≠ 127
+def wtermsig (w : Int) : Int := w % 128
+def wcoredump (w : Int) : Bool := w / 128 % 2 = 1
+def wifstopped (w : Int) : Bool := w % 256 = 127
+def wstopsig (w : Int) : Int := w / 256 % 256
+def wifcontinued (w : Int) : Bool := w = 65535
+
 /-- `FileType` tests (src/fs.rs:593-635) as the one-letter form of its `Debug`. -/
 def fileTypeChar (mode : Nat) : String :=
   let t := mode &&& 61440
@@ -1472,7 +1500,7 @@ def decodeOk (st0 : St) (op : OpKind) (a : Args) (k : FdKind) (toks : List Strin
       let i32ok (x : Int) : Bool := -2147483648 ≤ x && x ≤ 2147483647
       if !i32ok signo || !i32ok code || !i32ok pid || !i32ok status || uid ≥ U32 then none else
       if n ≠ 0 then pure "panic"
-      else pure s!"ok pid={pid} uid={uid} signo={signo} status={status} code={code}"
+      else pure s!"ok pid={pid} uid={uid} signo={signo} status={waitStatus code status} code={code}"
     | _ => none
   | .sigrecv => do
     -- ssi=signo:pid:uid
